@@ -132,13 +132,14 @@ CHECKS["C04"] = dict(
     technique="Coq MathComp proof (Schur complement) over translator-generated definitions + PrimFloat execution",
     design="4/C04")
 CHECKS["C06"] = dict(
-    text=("Theorems (11 obligations): posterior covariance symmetric PSD, diag path = diagonal of the full path, 0 <= var <= k(x,x), covariance at "
+    text=("Theorems (13 obligations): posterior covariance symmetric PSD, diag path = diagonal of the full path, 0 <= var <= k(x,x), covariance at "
           "conditioning points N - N (K+N)^-1 N hence in [0, jitter], the three families share the covariance body, mean_covariance is the Gram "
           "matrix of K_su W, W is the linear propagator of the input covariance factor (incl. latent std form); adding inducing points never "
           "increases the covariance (Loewner order, hence no variance: variational bound for x^T A^-1 x, thm/MonoThm.v); the Cholesky contract is "
           "satisfiable (lib/MxChol.v constructs the factor of every spd matrix by recursion on the dimension). PrimFloat execution + NumPy "
           "oracle (symmetry, eigenvalues, diag agreement, bounds, propagation by refitting with shifted y)."),
-    note=("Trusted: as C01. uncertainty_is_sum and the ValueError guards of the base-class wrappers are NOT proved (execution only)."),
+    note=("Trusted: as C01 plus translate/pyunc.py (the three `uncertainty` wrappers of base_predictor.py, regenerated every run: "
+          "uncertainty = covariance + mean_covariance, symmetric PSD, diag form = diagonal). The ValueError guards of the public wrappers are covered by execution only."),
     technique="Coq MathComp proof over translator-generated definitions + PrimFloat execution",
     design="4/C06")
 CHECKS["C09"] = dict(
